@@ -726,10 +726,19 @@ def _parse_schema(
 
                     # Ensure unique names for anonymous array items to avoid schema overwrites
                     # Only check for collision if this specific name already exists
-                    if not schema_name and item_schema_name_for_recursive_parse in context.parsed_schemas:
+                    # A name that is still being parsed (an anonymous array nested inside the items of another
+                    # anonymous array) is taken as well: re-using it would be mistaken for a reference cycle
+                    in_progress = context.unified_cycle_context.schema_stack
+                    if not schema_name and (
+                        item_schema_name_for_recursive_parse in context.parsed_schemas
+                        or item_schema_name_for_recursive_parse in in_progress
+                    ):
                         counter = 2  # Start from 2 since original is 1
                         original_name = item_schema_name_for_recursive_parse
-                        while item_schema_name_for_recursive_parse in context.parsed_schemas:
+                        while (
+                            item_schema_name_for_recursive_parse in context.parsed_schemas
+                            or item_schema_name_for_recursive_parse in in_progress
+                        ):
                             item_schema_name_for_recursive_parse = f"{original_name}{counter}"
                             counter += 1
 
@@ -843,10 +852,17 @@ def _parse_schema(
 
                 # Ensure unique names for anonymous array items to avoid schema overwrites
                 # Only check for collision if this specific name already exists
-                if not schema_name and item_schema_context_name_for_reparse in context.parsed_schemas:
+                in_progress_reparse = context.unified_cycle_context.schema_stack
+                if not schema_name and (
+                    item_schema_context_name_for_reparse in context.parsed_schemas
+                    or item_schema_context_name_for_reparse in in_progress_reparse
+                ):
                     counter = 2  # Start from 2 since original is 1
                     original_name = item_schema_context_name_for_reparse
-                    while item_schema_context_name_for_reparse in context.parsed_schemas:
+                    while (
+                        item_schema_context_name_for_reparse in context.parsed_schemas
+                        or item_schema_context_name_for_reparse in in_progress_reparse
+                    ):
                         item_schema_context_name_for_reparse = f"{original_name}{counter}"
                         counter += 1
 
